@@ -711,7 +711,7 @@ static void ProcessFile(char const* FileName, LongWord Offset) {
         printf("  (");
         ChkIO(OutName);
         errno = 0;
-        printf(PRIu32, SumLen);
+        printf("%" PRIu32, SumLen);
         ChkIO(OutName);
         errno = 0;
         printf(" %s)\n", getmessage((SumLen == 1) ? Num_Byte : Num_Bytes));
